@@ -344,7 +344,7 @@ def run(ctx, params):
 
 
 def replay(ctx, witness):
-    t = snapshot.from_plain(Node, witness["tree"])
+    t = snapshot.from_plain(Node, witness["tree"], fresh_ids=False)
     if witness.get("node_only"):
         try:
             evaluate.node(t)
